@@ -537,6 +537,9 @@ int64_t cmi_pool_acquire_inner(struct cmb_resourcepool *rpp,
                     found = cmi_process_remove_holdable(caller, hrp);
                     cmb_assert_debug(found == true);
                 }
+
+                /* In case someone else can use what we put back */
+                cmb_resourceguard_signal(&(rpp->guard));
             }
 
             cmb_assert_debug(rpp->in_use <= rpp->capacity);
